@@ -5,16 +5,16 @@ import json, subprocess
 TREE = {
  "C01": ("6/C01", "dispatch oracle: for every applied trigger the multiset of reaction commands the framework applies (hook Apply events inside the op's bracket) equals the registrations of a shadow table rebuilt from applied register/revoke ops, entity deaths and polls"),
  "C02": ("6/C02", "delivery life-cycle oracle: every applied command has exactly one terminal outcome (ran once / aborted because its target is gone) before the tree's flush returns; postponement only while the target executes; replay at completion of the blocker"),
- "C03": ("6/C03", "reader oracle: every run's full reader sample equals the data of the delivery that started it (payload id, entity), all other readers empty, at body start and body end"),
+ "C03": ("6/C03", "reader oracle: every run's full reader sample equals the data of the delivery that started it (payload id, entity), all other readers empty, at body start and body end; convenience accessors (read / entity / get_entity / is_empty) agree with the primary ones"),
  "C04": ("6/C04", "probe oracle: probes (syscall'd plain and exclusive systems with every reader) at generated tree positions read nothing; runs read nothing beyond their own event; second take fails; reacting flags clear between trees"),
  "C05": ("6/C05", "payload life-cycle oracle: Drop-logging payloads are dropped exactly once, not before every scheduled reader's body has ended or been aborted, immediately when nobody listens, by the end of the tree; no bookkeeping entity survives"),
  "C06": ("6/C06", "revocation oracle: shadow-table dispatch after applied revokes (same tree and later), table sizes and per-reactor registration counts (hook snapshot) equal the shadow table at every quiescent point"),
  "C07": ("6/C07", "lifetime oracle: reference-count model of every non-persistent registration call; GC events must name exactly the doomed reactors at the first collection; liveness at end of frame equals 'has a trigger left'; system state (canary) dropped exactly with the reactor"),
- "C08": ("6/C08", "removal/despawn oracle: per poll, reactions applied per (reactor, entity, component) lie between 'registered throughout' and 'registered at poll'; despawn reactions exactly the in-flight registrations; nothing pending after the end-of-frame poll"),
- "C09": ("6/C09", "structural order oracle: well-nested trace (ops of a run applied in queued order while it is innermost, every command applied inside its op's bracket or a poll, postponed commands replayed inside the completion of their blocker)"),
+ "C08": ("6/C08", "removal/despawn oracle: removals and despawns caused by commands, direct world access, plain Bevy systems in four slots of the frame, recursive despawn and automatic despawn (signal dropped, collected by the next garbage collection); per poll, reactions applied per (reactor, entity, component) lie between 'registered throughout' and 'registered at poll'; despawn reactions exactly the in-flight registrations; nothing pending after the end-of-frame poll"),
+ "C09": ("6/C09", "structural order oracle: well-nested trace (ops of a run applied in queued order while it is innermost, every command applied inside its op's bracket or a poll, postponed commands replayed inside the completion of their blocker, never dropped instead of postponed; polled despawn reactions run within the tree whose poll took them)"),
  "C11": ("6/C11", "quiescence invariant from the hook snapshot after every tree (counter, postponed buffer, four prepared lists, four reacting flags, callbacks present) over sequences of trees with aborts/postponements"),
  "C12": ("6/C12", "order oracle: deliveries from one sender to one target start, and their data is consumed, in the order sent (per payload id)"),
- "C13": ("6/C13", "state oracle: the k-th run of every registration sees Local == captured counter == k; state dropped only with the system"),
+ "C13": ("6/C13", "state oracle: the k-th run of every registration sees Local == captured counter == k; its Bevy change-detection baseline (ReactRes::is_changed sampled by every generated system, predicted from the applied resource mutations) is exactly its previous run; state dropped only with the system"),
  "C15": ("6/C15", "one-off oracle: dispatch/lifetime/run-count oracles specialised to reactors registered with `once` (at most one run, gone and unregistered afterwards, empty bundle dropped)"),
  "C18": ("6/C18", "fault-injection oracle: ops naming despawned systems/entities; no panic, no run of a dead system, payload released, every other oracle still holds in that tree"),
 }
@@ -41,19 +41,19 @@ for pid, (design, text) in sorted(TREE.items()):
         "property-based testing: proptest-generated programs (byte decoder), trace + reference model oracle, structural shrinking, JSON replay", NOTE))
 
 checks.append(check("C14", "acc14", "6/C14",
-    "accessor oracle: per system run of 1..n accessor calls (React, Reactive, ReactiveMut, ReactRes, ReactResMut, World/ReactCommands triggers, ReactCommands::insert, despawns) a value/liveness model predicts the multiset of reactions seen by type-wide and entity-scoped probe reactors, the stored values and every return value",
+    "accessor oracle: per system run of 1..n accessor calls (React, Reactive, ReactiveMut, ReactRes, ReactResMut, World/ReactCommands triggers, ReactCommands::insert, despawns) a value/liveness model predicts the multiset of reactions seen by type-wide and entity-scoped probe reactors, the stored values and every return value; read-only world-level resource accessors agree and trigger nothing",
     "property-based testing: proptest-generated call histories, reference model oracle, shrinking, JSON replay",
-    "exploration only; probe reactors are the observation device; type-wide mutation reactions for a dead entity are accepted either way"))
+    "exploration only; probe reactors are the observation device; a mutation trigger whose entity died before its application still runs the type-wide reactors (exactly one trigger per call)"))
 checks.append(check("C17", "sys17", "6/C17",
-    "syscall oracle: histories of calls over syscall / named_syscall / register_named_system + named_syscall_direct / spawn_system + spawned_syscall / Commands::syscall / Commands::spawned_syscall with nesting and command-issued calls; a key -> count model predicts every return value, the order of every queued-command effect visible on return, and every error",
+    "syscall oracle: histories of calls over syscall / named_syscall / register_named_system + named_syscall_direct / spawn_system + spawned_syscall / Commands::syscall / Commands::spawned_syscall / syscall_once (World, Commands, EntityCommands) / EntityCommands::syscall / spawn_rc_system (+ signal drop and collection) / Commands::insert_system / IdMappedSystems::revoke with nesting and command-issued calls; a key -> count model predicts every return value, the order of every queued-command effect visible on return, and every error",
     "property-based testing: proptest-generated call histories, reference model oracle, shrinking, JSON replay",
-    "exploration only; re-entering a running syscall/named key is never generated (documented as unsupported)"))
+    "exploration only; a re-entrant call on a running syscall / named key is generated with its own count left open (documented: only the outer-most invocation's state persists)"))
 checks.append(check("C10", "rc10", "6/C10",
-    "reference-count oracle: histories of prepare / clone / drop / garbage-collect / app.update / manual-despawn / spawn-child / reparent operations plus worker-thread drops; after every operation the set of live entities equals the count model (collected exactly when the last clone is gone, with descendants; never earlier; collections idempotent)",
+    "reference-count oracle: histories of prepare / clone / drop / garbage-collect / app.update / manual-despawn / spawn-child / reparent operations plus worker-thread drops, injected faults (a clone dropped by the unwinding of a caught panic; worker threads dying while holding clones) and clones held by components of other entities (dropped in the middle of a collection pass); after every operation the set of live entities equals the count model (collected exactly when the last clone is gone, with descendants; never earlier; collections idempotent)",
     "property-based testing: proptest-generated operation histories (incl. OS-thread drop schedules), reference-count model oracle, shrinking, JSON replay",
     "exploration only; thread interleavings are sampled by the OS scheduler, not enumerated (the checked invariants are schedule independent)"))
 checks.append(check("C16", "wr16", "6/C16",
-    "world-reactor oracle: histories of add / remove (partial, full, spanning entities) / run / trigger / despawn over two WorldReactors with dynamic bundles, one with starting triggers and three EntityWorldReactors; per window between settles the multiset of runs (reactor, readings, local entity + tag) equals the key-table model; per-entity run counters in the local data and per-reactor Locals are continuous; local data exists exactly while the entity lives and keeps a trigger; number of system commands constant",
+    "world-reactor oracle: histories of add / remove (partial, full, spanning entities) / run / trigger / despawn over two WorldReactors with dynamic bundles, one with starting triggers and three EntityWorldReactors; per window between settles the multiset of runs (reactor, readings, local entity + tag) equals the key-table model; add / remove / run return values (false only for add on a despawned entity); EntityLocal::get / entity agree with get_mut; per-entity run counters in the local data and per-reactor Locals are continuous; local data exists exactly while the entity lives and keeps a trigger; number of system commands constant",
     "property-based testing: proptest-generated operation histories, reference model oracle, shrinking, JSON replay",
     "exploration only; uses hook helpers verif_has_entity_world_local / verif_system_commands as read-only observers"))
 checks.sort(key=lambda c: c["property_id"])
